@@ -11,6 +11,7 @@ package fam_feedsprice
 import (
 	"encoding/json"
 	"fmt"
+	"hash/fnv"
 	"math/rand"
 	"sort"
 	"time"
@@ -325,6 +326,12 @@ func (s *session) installFeeds(want tf.M) {
 	}
 }
 
+func fracSeed(sc tf.Script) uint64 {
+	h := fnv.New64a()
+	h.Write([]byte(sc.Hash()))
+	return h.Sum64()
+}
+
 // RunScript plays one script and records its trace.
 func (d *Driver) RunScript(sc tf.Script) {
 	// scripts built in memory and scripts read from a file must look the same to the loosely typed readers below
@@ -337,6 +344,11 @@ func (d *Driver) RunScript(sc tf.Script) {
 	tokens := intsOf(sc.C["tokens"], []int{1, 2, 3})
 	w := d.world(tokens)
 	s := &session{d: d, w: w, r: w.Branch(), deact: map[string]int{}}
+	if d.Mode != "c15f" {
+		// x/feeds reads block times in whole seconds only: block times get sub-second parts (C15's activation rule of the
+		// oracle module compares full time values, so its traces keep whole seconds)
+		s.r.Fracs = world.FracsFor(fracSeed(sc))
+	}
 	s.stranger = world.NewAccount("stranger1")
 	s.stranger.Name = "x1"
 	w.RegisterName(s.stranger.ValAddr.String(), "x1")
